@@ -13,9 +13,39 @@ import (
 
 type vPipeline func(ctx context.Context, rec *vRecorder) Subscription
 
+// vPost describes an early-terminating stage appended downstream of the
+// catalogue entry at subscription time (C14); the zero value appends nothing.
+type vPostCfg struct {
+	take  int64             // > 0: Take(n)
+	first bool              // First(always true)
+	until Observable[int64] // TakeUntil(signal)
+	fail  int64             // > 0: a Tap callback that panics on the n-th value
+}
+
+var vPost vPostCfg
+
 func vPipe[T any](o Observable[T], flat func(T) []int64) vPipeline {
 	return func(ctx context.Context, rec *vRecorder) Subscription {
-		return o.SubscribeWithContext(ctx, vObs(rec, flat))
+		oo := o
+		if vPost.take > 0 {
+			oo = Take[T](vPost.take)(oo)
+		}
+		if vPost.first {
+			oo = First(func(T) bool { return true })(oo)
+		}
+		if vPost.until != nil {
+			oo = TakeUntil[T, int64](vPost.until)(oo)
+		}
+		if vPost.fail > 0 {
+			n := int64(0)
+			oo = TapOnNext(func(T) {
+				n++
+				if n >= vPost.fail {
+					panic(vErrC)
+				}
+			})(oo)
+		}
+		return oo.SubscribeWithContext(ctx, vObs(rec, flat))
 	}
 }
 
